@@ -289,6 +289,9 @@ class Exec(ExecExpr):
             if pname in env and isinstance(env[pname].ty, Ty.TInst) and env[pname].ty.cls == pval:
                 c = SP.CONTRACTS[vq]
                 break
+            if pname in env and isinstance(env[pname].ty, Ty.TCls) and env[pname].ty.name == pval:
+                c = SP.CONTRACTS[vq]        # a class passed as an argument selects the variant specialised to it
+                break
         self.used_contracts.add(c.qual)
         short = c.qual.split(':', 1)[1]
         # declared parameter types are part of the precondition
